@@ -201,6 +201,13 @@ def main():
     from common import Ctx, load_known_findings, DriverError
     ctx = Ctx(prop, tier, seed)
     ctx.escalate = 1 if build_ok else 10
+    # source fingerprints: code this property depends on differs from the tree the correspondence was last
+    # explored on -> not a violation, but look harder (larger budget, exhaustive universes)
+    import fingerprint
+    from common import REPO as _REPO
+    src_changed = fingerprint.changed_for(prop, _REPO)
+    if src_changed and ctx.escalate == 1 and os.environ.get("PF_NO_FINGERPRINT") != "1":
+        ctx.escalate = 4 if tier == "quick" else 2
     ctx.replay = json.load(open(replay)) if replay else None
     try:
         mod = importlib.import_module(f"props.{prop.lower()}")
@@ -303,6 +310,7 @@ def main():
         "extract": extract_note,
         "notes": ctx.notes,
         "object_history": dict(__import__("common").HISTORY_STATS),
+        "source_fingerprint": {"changed_since_record": src_changed[:40], "escalation": ctx.escalate},
         "exhaustive": bool(getattr(ctx, "exhaustive", False)),
     }
     ev = {
